@@ -442,8 +442,13 @@ class FunctionReference:
         assert isinstance(qualified_name, str), "Qualified name must be a str"
 
         # Parse information from the string
+        # Module and function are dotted Python names (a function name may contain
+        # "<locals>" / "<lambda>" segments); cluster and version are free text
+        name = r"(?:[^\W\d]\w*|<\w+>)"
+        dotted = name + r"(?:\." + name + r")*"
         match = re.match(
-            r"((?P<cluster>.*?)::)?(?P<module>[^:#]+):(?P<function>[^:#]+)(#(?P<version>.*))?$",
+            r"((?P<cluster>.*?)::)?(?P<module>" + dotted + r"):(?P<function>" + dotted + r")"
+            r"(#(?P<version>.*))?$",
             qualified_name,
         )
         if not match:
